@@ -236,28 +236,32 @@ end Inst
 
 /-! ## C09 — assignment as a unit-capacity bipartite flow -/
 
-/-- **assignment_of_flow** (assignment ⇒ flow): every valid assignment (columns in range, no
-column twice, `min n m` rows assigned) is a feasible integral flow of `solve_assignment`'s network
-with demand `min n m`, of the same cost. -/
-theorem assignment_of_flow_partial {n m : Nat} (C : Nat → Nat → Int) {α : Nat → Option Nat}
-    (h : ValidAssign n m α) :
-    (assignInst n m C).Feas (flowOfAssign n m C α) ∧
-    (assignInst n m C).costF (flowOfAssign n m C α) = assignCost n C α :=
-  assign_feasible C h
--- FULL STATEMENT (not proved): additionally, for every `y` with `(assignInst n m C).Feas y` there
--- is `α` with `ValidAssign n m α ∧ assignCost n C α = (assignInst n m C).costF y` (flow ⇒ assignment),
--- so that the minimum over flows is attained by an assignment.
+/-- **assignment_of_flow**: the feasible integral flows of `solve_assignment`'s unit-capacity
+bipartite network with demand `min n m` are exactly the valid assignments (columns in range, no
+column twice, `min n m` rows assigned), with equal costs: every valid assignment is such a flow,
+and every such flow is (read off row by row) a valid assignment. -/
+theorem assignment_of_flow {n m : Nat} (C : Nat → Nat → Int) :
+    (∀ α, ValidAssign n m α →
+      (assignInst n m C).Feas (flowOfAssign n m C α) ∧
+      (assignInst n m C).costF (flowOfAssign n m C α) = assignCost n C α) ∧
+    (∀ y, (assignInst n m C).Feas y →
+      ∃ α, ValidAssign n m α ∧ assignCost n C α = (assignInst n m C).costF y) :=
+  ⟨fun _ h => assign_feasible C h, fun _ hy => assign_of_feasible C hy⟩
 
 /-- consequence used by the check: a certified optimum of the assignment network is a lower bound
-for every valid assignment, so a returned valid assignment whose cost equals it is optimal. -/
+for every valid assignment and is attained by one, so a returned valid assignment is optimal iff
+its cost equals the certified value. -/
 theorem assignment_optimal_of_cert {n m : Nat} (C : Nat → Nat → Int) {x p : List Int} {val : Int}
     (h : (assignInst n m C).chkMinCost x p val = true) :
-    ∀ α, ValidAssign n m α → val ≤ assignCost n C α := by
-  intro α hα
+    (∀ α, ValidAssign n m α → val ≤ assignCost n C α) ∧
+    (∃ α, ValidAssign n m α ∧ assignCost n C α = val) := by
   have hv : (assignInst n m C).valid = true := ((assignInst n m C).valid_iff).2 (assignInst_valid n m C)
-  obtain ⟨_, _, f3⟩ := (assignInst n m C).chkMinCost_sound hv x p val h
-  obtain ⟨g1, g2⟩ := assign_feasible C hα
-  rw [← g2]; exact f3 _ g1
+  obtain ⟨f1, f2, f3⟩ := (assignInst n m C).chkMinCost_sound hv x p val h
+  refine ⟨fun α hα => ?_, ?_⟩
+  · obtain ⟨g1, g2⟩ := assign_feasible C hα
+    rw [← g2]; exact f3 _ g1
+  · obtain ⟨α, hα, hc⟩ := assign_of_feasible C f1
+    exact ⟨α, hα, by rw [hc, f2]⟩
 
 /-- the checker for a returned assignment list decides exactly what the property asks of it -/
 theorem chkAssign_sound {n m : Nat} {a : List Int} (h : chkAssign n m a = true) :
@@ -275,7 +279,7 @@ example : witnessInst.chkMinCost [0, 1, 3, 0] [-5, 0] 20 = true := by decide
 example : (witnessInst.ssp 0 1 4).cost = 20 := by decide
 -- hypotheses of `chkInfeas_sound` / `infeasible_cut_cert`: demand 9 exceeds the capacity 5 out of {0}
 example : (Inst.ofST 2 [⟨1, 0, 2, 2⟩, ⟨0, 1, 1, 5⟩, ⟨0, 1, 4, 5⟩] 0 1 9).chkInfeas [0] = true := by decide
--- hypotheses of `assignment_of_flow_partial` / `chkAssign_sound`: a 2×3 assignment
+-- hypotheses of `assignment_of_flow` / `chkAssign_sound`: a 2×3 assignment
 example : chkAssign 2 3 [2, 0] = true := by decide
 example : ValidAssign 2 3 (aOf [2, 0]) := (chkAssign_sound (by decide)).2
 
